@@ -33,9 +33,12 @@ F13, `StructSeqApart spec`: no structure is named like a (starred) sequence (`mf
 * signal connector sequences are part of the design (`d.seqs`) but not of the saved tree, so they have no entry:
   the entry clauses run over the entries of `out` that are named in `d`.
 
-Still partial (see `text_level_GOAL` at the end): the step from the LINES of the `.mfe` file to the record list is stated
-on the record list (`mfeLines` ↔ `mfeRecs` ↔ `mfeDesign`); the text level is `through_the_file` / C17
-`reader_roundtrip`, whose records need a genuine float where the model writes the opaque token `GC`.
+The text level: the theorems of this file end with `Finish.apply` on the record list (`mfeLines` ↔ `mfeRecs` ↔
+`mfeDesign`).  **Part 3 is `PepperProps/C06Text.lean`** (a file of its own because `ParsePil.lean` imports this one):
+`end_to_end_text*` state the same results for `Finish.finishText` on the rendered TEXT of the records, the readability
+of the records (`wfRec`: name alphabet, no empty sequence, letters in the reader's alphabet) being derived from the
+compile (`mfeRecs_readable`) through `text_level_partial` below.  Still open there: the GC-content field of a record is
+an arbitrary valid float token (the model writes the opaque token `GC`; Python's `%f` is not modelled).
 
 **Part 1** is the finish stage on its own (`Relations`, `CompRel`, `AtomOk`, `IsConcat`, `IsJoin`, `render`,
 `finishText` in `PepperProofs/Finish.lean`) and the two file-listing clauses.
@@ -350,16 +353,21 @@ theorem mfe_names_distinct_of_compile {b : Sys.Bundle} {fuel : Nat} {base : Stri
     MfeNamesDistinct spec :=
   mfeNamesDistinct_of_compile hfile hb hload h
 
-/-- PARTIAL — the text level.  Missing: that the records `output` writes are readable by the `.mfe` reader (`wfRec`:
-    every name over the reader's name alphabet, no empty sequence) is a HYPOTHESIS here (decidable, `hwf`), not derived
-    from the compile; and the model writes the opaque token `GC` where the file has the GC-content float, so the
-    statement is for the records with any valid float `g` in that field.  Given that, finishing the TEXT of the `.mfe`
-    file is finishing the record list, so `end_to_end` carries over to `Finish.finishText` verbatim.
+/-- PARTIAL — the text level, as a lemma: finishing the TEXT of the `.mfe` file is finishing the record list, GIVEN
+    (`hwf`, decidable) that the records `output` writes are readable by the `.mfe` reader (`wfRec`: every name over the
+    reader's name alphabet, no empty sequence, letters over its sequence alphabet), for the records with any valid
+    float token `g` in the GC-content field.
 
-    GOAL (full): for `spec` loaded from a compiled tree under the bundle hypotheses,
-    `∀ x ∈ mfeRecsGC pilTable spec asg g, Finish.wfRec alphaMfeSeq x = true` (missing links: every full name
-    `pfx ++ name` of the tree and every signal name is a non-empty word over `isVarChar`; no sequence of the emitted
-    specification has length 0; letters written are in the reader's alphabet `alphaMfeSeq`). -/
+    DISCHARGED since (in `PepperProps/C06Text.lean`, which uses this lemma): `hwf` holds for the specification of every
+    compiled program whose source names are over `[A-Za-z0-9_-]` — `Pepper.C06.Text.mfeRecs_readable` (trees),
+    `mfeRecs_readable_component`; the exact condition on a specification is `Text.readable_condition`
+    (`specReadable`: names, NO sequence / strand of length 0 — the compiler writes no zero-length sequence into the
+    PIL and refuses zero-length strands and signals —, structures with a strand and a non-empty text).  The end-to-end
+    theorems at the text level are `Text.end_to_end_text`, `_component`, `_struct`, `_tokens`.
+
+    WHAT REMAINS (why this is still named `_partial`): the GC-content field.  The model's `Mfe.output` writes the opaque
+    token `GC` there (`mfeLines`); the statement is for ANY token `g` over `[0-9.-]` that `float()` accepts.  That
+    Python's `"%f" % gc_content` prints such a token is not modelled (no float formatting in the model). -/
 theorem text_level_partial {spec : Spec} {asg : Var → Base} {g : List Char}
     (hg1 : Finish.okWord Finish.isNumChar g = true) (hg2 : Finish.validFloat g = true)
     (hwf : ∀ x ∈ mfeRecsGC Generated.pilTable spec asg g, Finish.wfRec Generated.alphaMfeSeq x = true)
